@@ -30,7 +30,9 @@ def bits(x):
 
 # ---------------------------------------------------------------- case <-> xarray
 def to_dataset(d):
-    """case dataset dict -> xr.Dataset (labelled shared dimension; grid: scnline x scnpos)"""
+    """case dataset dict -> xr.Dataset.  layouts: "c" labelled shared dimension (default), "time" the shared
+    dimension IS the time coordinate (unique times), "nolabel" dimension without coordinate (only when the
+    window keeps every point); grid: scnline x scnpos, "gridT" = lat/lon stored as (scnpos, scnline)"""
     import xarray as xr
     t = (T_EPOCH + np.array(d["t"], dtype="int64").astype("timedelta64[ns]")).astype("datetime64[ns]")
     lat = np.array([[np.nan if v is None else v for v in row] for row in d["lat"]], dtype=float) if d.get("grid") \
@@ -38,9 +40,17 @@ def to_dataset(d):
     lon = np.array([[np.nan if v is None else v for v in row] for row in d["lon"]], dtype=float) if d.get("grid") \
         else np.array([np.nan if v is None else v for v in d["lon"]], dtype=float)
     ids = np.array(d["ids"], dtype="int64")
+    layout = d.get("layout", "c")
     if d.get("grid"):
+        if layout == "gridT":
+            return xr.Dataset({"time": ("scnline", t), "lat": (("scnpos", "scnline"), lat.T), "lon": (("scnpos", "scnline"), lon.T),
+                               "id": (("scnpos", "scnline"), ids.T)}, coords={"scnline": np.array(d["labels"], dtype="int64")})
         return xr.Dataset({"time": ("scnline", t), "lat": (("scnline", "scnpos"), lat), "lon": (("scnline", "scnpos"), lon),
                            "id": (("scnline", "scnpos"), ids)}, coords={"scnline": np.array(d["labels"], dtype="int64")})
+    if layout == "time":
+        return xr.Dataset({"lat": ("time", lat), "lon": ("time", lon), "id": ("time", ids)}, coords={"time": t})
+    if layout == "nolabel":
+        return xr.Dataset({"time": ("c", t), "lat": ("c", lat), "lon": ("c", lon), "id": ("c", ids)})
     return xr.Dataset({"time": ("c", t), "lat": ("c", lat), "lon": ("c", lon), "id": ("c", ids)},
                       coords={"c": np.array(d["labels"], dtype="int64")})
 
@@ -566,10 +576,22 @@ def gen_call(rng, R, max_n):
     p, s = gen_pair(rng, n, m, mi_ns, km, R, unit, nan_rate=rng.choice([0, 0, 0.1, 0.3]))
     if rng.random() < 0.5:
         p, s = s, p
-    call = {"p": p, "s": s, "mi": mi, "md": md, "bin_factor": rng.choice([1, 1, 2, 5]),
+    if rng.random() < 0.12:        # same time stamps on both sides (needed for the unlabelled layout)
+        k = min(len(p["t"]), len(s["t"]))
+        for d in (p, s):
+            for key in ("t", "lat", "lon", "ids", "labels"):
+                d[key] = d[key][:k]
+        s["t"] = list(p["t"])
+    call = {"p": p, "s": s, "mi": mi, "md": md, "bin_factor": rng.choice([1, 1, 2, 5, 0.5, 0.25]),
             "magnitude_factor": rng.choice([10, 10, 1, 2, 0, 100]), "leaf_size": rng.choice([40, 40, 1, 2, 10]),
             "seed": rng.randrange(2 ** 31), "start": None, "end": None}
-    if rng.random() < 0.25:
+    for d in (call["p"], call["s"]):          # other branches of _flat_to_main_coord
+        u = rng.random()
+        if u < 0.15 and len(set(d["t"])) == len(d["t"]):
+            d["layout"] = "time"
+        elif u < 0.25 and set(call["p"]["t"]) == set(call["s"]["t"]):
+            d["layout"] = "nolabel"      # identical time stamps on both sides: the common window keeps every point
+    if rng.random() < 0.25 and "nolabel" not in (call["p"].get("layout"), call["s"].get("layout")):
         ts = sorted(p["t"] + s["t"])
         a = rng.choice(ts) + rng.choice([0, -1000, 1000])
         b = rng.choice(ts) + rng.choice([0, -1000, 1000])
@@ -590,7 +612,7 @@ def to_grid(rng, d, npos):
     pick = lambda key: [[d[key][i * npos + j] for j in range(npos)] for i in range(n)]
     labels = rng.sample(range(1, 10 * n + 10), n)
     return {"grid": True, "t": [d["t"][i * npos] for i in range(n)], "lat": pick("lat"), "lon": pick("lon"),
-            "ids": pick("ids"), "labels": labels}
+            "ids": pick("ids"), "labels": labels, "layout": "gridT" if rng.random() < 0.25 else "grid"}
 
 
 def gen_history(rng, R, max_n):
@@ -636,35 +658,71 @@ def gen_binned_direct(rng, R):
     if rng.random() < 0.5:
         p, s = s, p
     return {"op": "binned", "p": {k: p[k] for k in ("t", "lat", "lon")}, "s": {k: s[k] for k in ("t", "lat", "lon")},
-            "mi_us": mi_us, "md": km, "bin_factor": rng.choice([1, 1, 2, 3, 10]), "magnitude_factor": rng.choice([10, 1, 0, 3]),
+            "mi_us": mi_us, "md": km, "bin_factor": rng.choice([1, 1, 2, 3, 10, 0.5, 0.25]), "magnitude_factor": rng.choice([10, 1, 0, 3]),
             "leaf_size": rng.choice([40, 2]), "seed": rng.randrange(2 ** 31)}
 
 
-def gen_big(rng, R):
-    """> 10^6 candidate pairs: collocate() takes the temporally pre-binned path"""
+def gen_big(rng, R, grid=False):
+    """> 10^6 candidate pairs AFTER the window selection and the NaN filter: collocate() takes the temporally
+    pre-binned path.  Both datasets contain the global first and last time stamp, so the common window keeps all
+    points; bin_factor below and above 1; |dt| spread over (0, max_interval) and around it."""
     mi = rng.choice([{"kind": "str", "v": "10 s", "ns": 10 ** 10}, {"kind": "num", "v": 30},
-                     {"kind": "str", "v": "1500 ms", "ns": 1500 * 10 ** 6}])
+                     {"kind": "str", "v": "1500 ms", "ns": 1500 * 10 ** 6}, {"kind": "num", "v": 2.5}])
     _, mi_ns = mi_value(mi)
     km = rng.choice([2.0, 10.0])
-    n, m = rng.choice([(1100, 1000), (1000, 1100), (1300, 800), (1001, 1000)])
+    n, m = rng.choice([(1250, 1100), (1100, 1250), (1500, 950), (1060, 1060)])
+    if grid:
+        n = 3 * (n // 3)
     span = mi_ns * rng.choice([20, 60])
     c = (rng.uniform(-60, 60), rng.uniform(-170, 170))
     spts = g.gen_points(rng, m, "cluster", c, km / 6.371 * 4)
-    st = [T_BASE + (rng.randrange(0, span) // 10 ** 6) * 10 ** 6 for _ in range(m)]
+    st = [T_BASE + span + (rng.randrange(0, span) // 10 ** 6) * 10 ** 6 for _ in range(m)]
     ppts, pt = [], []
     for _ in range(n):
         j = rng.randrange(m)
-        f = rng.choice([0.5, 0.9, 1.1, 3.0])
-        ppts.append(g.destination(spts[j][0], spts[j][1], g.angle_for("minkowski", f * km, R), rng.uniform(0, 6.28)))
-        off = rng.choice([0, mi_ns, -mi_ns, mi_ns - 10 ** 6, mi_ns + 10 ** 6, rng.randrange(-2 * mi_ns, 2 * mi_ns)])
+        f = rng.choice([0.0, 0.5, 0.9, 1.1, 3.0])
+        ppts.append(g.destination(spts[j][0], spts[j][1], g.angle_for("minkowski", f * km, R), rng.uniform(0, 6.28)) if f else spts[j])
+        off = rng.choice([0, mi_ns, -mi_ns, mi_ns - 10 ** 6, mi_ns + 10 ** 6, rng.randrange(-2 * mi_ns, 2 * mi_ns),
+                          rng.randrange(1, mi_ns) , -rng.randrange(1, mi_ns), rng.randrange(1, mi_ns), -rng.randrange(1, mi_ns)])
         pt.append(st[j] + (off // 10 ** 6) * 10 ** 6)
     if rng.random() < 0.5:      # a long gap: empty pandas groups
         pt = [t + (50 * mi_ns if i % 2 else 0) for i, t in enumerate(pt)]
         st = [t + (50 * mi_ns if i % 3 == 0 else 0) for i, t in enumerate(st)]
+    lo, hi = min(pt + st), max(pt + st)
+    pt[0], pt[1], st[0], st[1] = lo, hi, lo, hi          # same coverage: nothing is cut by the common window
     mk = lambda pts, ts, b: {"t": ts, "lat": [x[0] for x in pts], "lon": [x[1] for x in pts],
                              "ids": [b + i for i in range(len(ts))], "labels": list(range(len(ts)))}
-    return {"p": mk(ppts, pt, 10000), "s": mk(spts, st, 50000), "mi": mi, "md": km, "bin_factor": rng.choice([1, 2, 5]),
-            "magnitude_factor": rng.choice([10, 1]), "leaf_size": 40, "seed": rng.randrange(2 ** 31), "start": None, "end": None}
+    p = mk(ppts, pt, 10000)
+    if grid:            # scan lines of 3 positions (time of the line = time of its first point)
+        order = sorted(range(n), key=lambda i: pt[i])
+        p = {k: [p[k][i] for i in order] for k in p}
+        p = to_grid(rng, p, 3)
+        p["layout"] = "grid"
+        p["t"][0], p["t"][-1] = lo, hi
+    call = {"p": p, "s": mk(spts, st, 50000), "mi": mi, "md": km, "bin_factor": rng.choice([0.25, 0.5, 1, 4]),
+            "magnitude_factor": rng.choice([10, 1]), "leaf_size": 40, "seed": rng.randrange(2 ** 31), "start": None, "end": None,
+            "_expect_binned": True}
+    if rng.random() < 0.5:
+        call["p"], call["s"] = call["s"], call["p"]
+    return call
+
+
+def follow_up_of_big(rng, rec, col, big):
+    """a small direct call whose one side is exactly the point set of the index the binned call left behind
+    (so the cached index is eligible for re-use), on the same Collocator"""
+    builds = [ev for ev in rec.events if ev[0] == "build"]
+    queries = [ev for ev in rec.events if ev[0] == "query"]
+    if not builds or not queries:
+        return None
+    ix = col.index
+    qlat, qlon = queries[-1][2], queries[-1][3]
+    a = {"t": [T_BASE] * len(ix.lat), "lat": [float(x) for x in ix.lat], "lon": [float(x) for x in ix.lon],
+         "ids": [7000 + i for i in range(len(ix.lat))], "labels": list(range(len(ix.lat)))}
+    b = {"t": [T_BASE + 10 ** 9] * len(qlat), "lat": [float(x) for x in qlat], "lon": [float(x) for x in qlon],
+         "ids": [8000 + i for i in range(len(qlat))], "labels": list(range(len(qlat)))}
+    p, s = (a, b) if col.index_with_primary else (b, a)
+    return {"p": p, "s": s, "mi": {"kind": "str", "v": "10 s", "ns": 10 ** 10}, "md": big["md"], "bin_factor": 1,
+            "magnitude_factor": big["magnitude_factor"], "leaf_size": 40, "seed": rng.randrange(2 ** 31), "start": None, "end": None}
 
 
 # ---------------------------------------------------------------- driver batching
@@ -688,8 +746,9 @@ class Batch:
         self.lines, self.cbs = [], []
 
 
-def run_history(ck, rec, calls, R, use_model, batch):
-    """calls on ONE Collocator; the driver keeps the matching object state between them"""
+def run_history(ck, rec, calls, R, use_model, batch, follow_up=None):
+    """calls on ONE Collocator; the driver keeps the matching object state between them.  `follow_up(col, last
+    call)` may append one more call that depends on what the real object did (needs the recorder's events)."""
     from typhon.collocations import Collocator
     col = Collocator()
     state = {"built": 0, "calls": 0}
@@ -698,11 +757,19 @@ def run_history(ck, rec, calls, R, use_model, batch):
     def collect(lines, cb):
         cbs.append((len(all_lines), len(lines), cb))
         all_lines.extend(lines)
-    for k, call in enumerate(calls):
-        c = dict(call)
+    calls = list(calls)
+    k = 0
+    while k < len(calls):
+        c = dict(calls[k])
         if len(calls) > 1:
             c["_history"] = calls[:k]
         run_call(ck, col, rec, c, R, state, use_model, collect)
+        if follow_up is not None and k == len(calls) - 1:
+            extra = follow_up(col, calls[k])
+            follow_up = None
+            if extra is not None:
+                calls.append(extra)
+        k += 1
     if use_model and cbs:
         def cb_all(out):
             for a, n, cb in cbs:
@@ -742,8 +809,13 @@ def explore(ck, n_calls, n_hist, n_binned, n_big, max_n, use_model=True):
                     if gs is not None:
                         call["s"] = gs
                 run_history(ck, rec, [call], R, use_model, batch)
-        for _ in range(n_big):
-            run_history(ck, rec, [gen_big(rng, R)], R, use_model, batch)
+        for k in range(n_big):
+            big = gen_big(rng, R, grid=(k % 3 == 2))
+            if k % 3 == 1:      # reused Collocator x binned path: binned call, then a small call on the cached points
+                run_history(ck, rec, [gen_call(rng, R, 30), big], R, use_model, batch,
+                            follow_up=lambda col, last: follow_up_of_big(rng, rec, col, last))
+            else:
+                run_history(ck, rec, [big], R, use_model, batch)
         batch.flush()
     finally:
         restore()
@@ -793,7 +865,7 @@ def main():
     ck.build()
     use_model = ck.build_ok is not False or os.path.exists(os.path.join(ck.pkgdir, ".lake/build/bin/drv_c04"))
     th = ck.tier == "thorough"
-    explore(ck, ck.budget(300, 2500), ck.budget(60, 400), ck.budget(120, 800), ck.budget(3, 30), 3000 if th else 300, use_model)
+    explore(ck, ck.budget(300, 2500), ck.budget(60, 400), ck.budget(120, 800), ck.budget(4, 30), 3000 if th else 300, use_model)
     if ck.broken() and not ck.violations:
         explore(ck, 1500, 200, 400, 4, 300, use_model=False)
     ck.finish()
